@@ -777,6 +777,8 @@ class Interp(object):
             return SExcClass(name)
         if name in ('True', 'False', 'None'):
             return {'True': True, 'False': False, 'None': None}[name]
+        if name == 'PI':
+            return PI
         if ('builtins.' + name) in self.models:
             return SBuiltin('builtins.' + name)
         raise Unsupported('unknown name %s' % name)
